@@ -28,8 +28,17 @@ def run_one(name, props, tier, slot):
     lean = "/tmp/seedlean_%d_%d" % (os.getpid(), slot)
     out = tempfile.mkdtemp(prefix="seedout_")
     res = {}
-    sh(["git", "-C", "/repo", "worktree", "remove", "--force", wt])
-    r = sh(["git", "-C", "/repo", "worktree", "add", "--detach", wt, "HEAD"])
+    import time
+    for attempt in range(6):     # concurrent `git worktree add` calls can collide on the repository lock
+        sh(["git", "-C", "/repo", "worktree", "remove", "--force", wt])
+        shutil.rmtree(wt, ignore_errors=True)
+        sh(["git", "-C", "/repo", "worktree", "prune"])
+        r = sh(["git", "-C", "/repo", "worktree", "add", "--detach", wt, "HEAD"])
+        if r.returncode == 0 and os.path.isdir(os.path.join(wt, "src")):
+            break
+        time.sleep(1 + attempt)
+    else:
+        return name, {p: {"outcome": "scratch-worktree-failed", "log": r.stdout[-300:]} for p in props}
     try:
         r = sh(["git", "-C", wt, "apply", "--whitespace=nowarn", os.path.join(d, "patch.diff")])
         if r.returncode != 0:
